@@ -44,6 +44,88 @@ fn equates_a_unique_column(on: &Expr, left: &Relation, right: &Relation) -> bool
     false
 }
 
+const PROTECTED: [&str; 8] = ["users", "orders", "items", "m", "people", "purchases", "lines", "mm"];
+
+fn has_protected_table(r: &Relation) -> bool {
+    match r {
+        Relation::Table(t) => PROTECTED.contains(&t.name()),
+        r => r.inputs().iter().any(|i| has_protected_table(i)),
+    }
+}
+
+/// the base-table column a field is a plain copy of (through projections that only rename, joins and group-by
+/// keys), as `table.column`
+fn base_column(r: &Relation, field: &str) -> Option<String> {
+    match r {
+        Relation::Table(t) => Some(format!("{}.{}", t.name(), field)),
+        Relation::Map(m) => {
+            let e = m.named_exprs().into_iter().find(|(n, _)| *n == field)?.1;
+            match e {
+                Expr::Column(c) => base_column(m.input(), c.last().ok()?),
+                _ => None,
+            }
+        }
+        Relation::Reduce(red) => {
+            let (_, agg) = red.named_aggregates().into_iter().find(|(n, _)| *n == field)?;
+            if matches!(agg.aggregate(), Aggregate::First) && red.group_by().iter().any(|g| g.last().ok() == agg.column_name().ok()) {
+                base_column(red.input(), agg.column_name().ok()?)
+            } else {
+                None
+            }
+        }
+        Relation::Join(j) => {
+            let pos = j.schema().iter().position(|f| f.name() == field)?;
+            let nl = j.left().schema().len();
+            if pos < nl {
+                base_column(j.left(), j.left().schema().iter().nth(pos)?.name())
+            } else {
+                base_column(j.right(), j.right().schema().iter().nth(pos - nl)?.name())
+            }
+        }
+        _ => None,
+    }
+}
+
+/// the link domain of a base column: two rows that agree on columns of one domain belong to the same privacy unit
+fn unit_link(base: &str) -> Option<&'static str> {
+    match base {
+        "users.id" | "orders.user_id" | "people.id" | "purchases.user_id" => Some("unit"),
+        "orders.id" | "items.order_id" | "purchases.id" | "lines.order_id" => Some("order"),
+        _ => None,
+    }
+}
+
+/// the ON clause has a top-level conjunct equating two columns that identify the same privacy unit on both sides
+fn on_implies_same_unit(on: &Expr, left: &Relation, right: &Relation) -> bool {
+    let mut cs = vec![];
+    conjuncts(on, &mut cs);
+    for c in cs.iter() {
+        if let Expr::Function(f) = c {
+            if f.function() == Function::Eq {
+                let args = f.arguments();
+                if let (Expr::Column(a), Expr::Column(b)) = (&args[0], &args[1]) {
+                    let (pa, pb): (Vec<String>, Vec<String>) = (a.iter().cloned().collect(), b.iter().cloned().collect());
+                    let side = |p: &Vec<String>| -> Option<&'static str> {
+                        match (p.first().map(|s| s.as_str()), p.last()) {
+                            (Some("_LEFT_"), Some(n)) => base_column(left, n).and_then(|b| unit_link(&b)),
+                            (Some("_RIGHT_"), Some(n)) => base_column(right, n).and_then(|b| unit_link(&b)),
+                            _ => None,
+                        }
+                    };
+                    if pa.first() != pb.first() {
+                        if let (Some(x), Some(y)) = (side(&pa), side(&pb)) {
+                            if x == y {
+                                return true;
+                            }
+                        }
+                    }
+                }
+            }
+        }
+    }
+    false
+}
+
 pub fn features(r: &Relation) -> Vec<String> {
     let mut out = BTreeSet::new();
     fn walk(r: &Relation, out: &mut BTreeSet<String>) {
@@ -73,6 +155,26 @@ pub fn features(r: &Relation) -> Vec<String> {
                     JoinOperator::Cross => ("cross", None),
                 };
                 out.insert(format!("join.{kind}"));
+                // joins of two relations over protected tables whose ON clause does not force the same privacy unit
+                // (the privacy-unit rewriting adds the unit equality, i.e. changes what the join returns), and outer
+                // joins that preserve a side without protected tables (its unmatched rows have no unit)
+                let (lp, rp) = (has_protected_table(j.left()), has_protected_table(j.right()));
+                let on_expr = match j.operator() {
+                    JoinOperator::Inner(e) | JoinOperator::LeftOuter(e) | JoinOperator::RightOuter(e) | JoinOperator::FullOuter(e) => Some(e),
+                    JoinOperator::Cross => None,
+                };
+                if lp && rp && !on_expr.map_or(false, |e| on_implies_same_unit(e, j.left(), j.right())) {
+                    out.insert(format!("join.{kind}.cross-unit"));
+                }
+                let public_preserved = match kind {
+                    "left" => !lp && rp,
+                    "right" => lp && !rp,
+                    "full" => lp != rp,
+                    _ => false,
+                };
+                if public_preserved {
+                    out.insert(format!("join.{kind}.public-side-preserved"));
+                }
                 if let Some(on) = on {
                     if equates_a_unique_column(on, j.left(), j.right()) {
                         out.insert(format!("join.{kind}.on-unique-key"));
